@@ -54,13 +54,13 @@ type fieldKey struct {
 	field int
 }
 
-func (fieldKey) Name() string                   { return "field" }
-func (fieldKey) String() string                 { return "field" }
-func (fieldKey) Type() types.Type               { return nil }
-func (fieldKey) Parent() *ssa.Function          { return nil }
-func (fieldKey) Referrers() *[]ssa.Instruction  { return nil }
+func (fieldKey) Name() string                         { return "field" }
+func (fieldKey) String() string                       { return "field" }
+func (fieldKey) Type() types.Type                     { return nil }
+func (fieldKey) Parent() *ssa.Function                { return nil }
+func (fieldKey) Referrers() *[]ssa.Instruction        { return nil }
 func (fieldKey) Operands(r []*ssa.Value) []*ssa.Value { return r }
-func (fieldKey) Pos() token.Pos                 { return token.NoPos }
+func (fieldKey) Pos() token.Pos                       { return token.NoPos }
 
 func rootsOf(v ssa.Value) map[ssa.Value]bool {
 	o := map[ssa.Value]bool{}
